@@ -162,7 +162,7 @@ def dumpObs : Obs → String
   | .requirements r => dumpRes (fun rs => "R[" ++ "+".intercalate (rs.map dumpReq) ++ "]") r
 
 def runDump (u : Universe) (cs : List Call) : String :=
-  let r := runCalls ApiClientMatch.matchNPMRequirement (serviceOf u) Store.empty cs
+  let r := runCalls DepsDev.Model.Resolve.ApiClientMatch.matchNPMRequirement (serviceOf u) Store.empty cs
   "ok " ++ ",".intercalate (r.1.map dumpObs)
 
 def handle : List String → Option String
